@@ -674,6 +674,7 @@ where
                         rng_algorithm: RngAlgorithm::ChaCha,
                         rng_seed: RngSeed::Fixed(0), // overridden below through the rng
                         max_shrink_iters: 4000,
+                        max_shrink_time: 300_000, // ms; bounds minimisation only, never the verdict
                         max_global_rejects: 1_000_000,
                         ..Config::default()
                     };
